@@ -66,8 +66,90 @@ def one(ctx: Ctx, spec, dtype, m, exhaustive):
              sample={"aggregator": spec.name, "rows": m, "pref": str(pv), "permutations": len(perms)})
 
 
+def snap(x, dtype):
+    """exact rational value of x rounded to dtype"""
+    return Fr(torch.tensor(float(x), dtype=dtype).item())
+
+
+def trimmed_outliers(ctx: Ctx, dtype):
+    """TrimmedMean on >= 5 non-integer rows with outliers 1e6..1e12 times larger than the entries that are kept: the
+    result is a function of the SORTED columns, so no row order may change it beyond the rounding of the kept entries
+    (a rewrite that sums everything and subtracts the extremes depends on the order through cancellation)"""
+    from torchjd.aggregation import TrimmedMean
+    rng = ctx.rng
+    b = rng.choice([1, 1, 2])
+    m = rng.randint(2 * b + 3, 2 * b + 5)
+    n = rng.choice([1, 2, 4])
+    J = [[snap(rng.uniform(-3, 3) + rng.choice([0, 10]), dtype) for _ in range(n)] for _ in range(m)]
+    big = 10.0 ** rng.choice([6, 8, 11]) if dtype == torch.float64 else 10.0 ** rng.choice([4, 5, 6])
+    for c in range(n):
+        for r in rng.sample(range(m), rng.randint(1, b)):          # at most b outliers per column: all of them are trimmed
+            J[r][c] = snap(rng.choice([-1, 1]) * big * rng.uniform(1, 9), dtype)
+    Jt = to_tensor(J, dtype)
+    A = TrimmedMean(trim_number=b)
+    x = A(Jt)
+    kept = 13.0
+    tol = 64 * float(torch.finfo(dtype).eps) * kept * m
+    rp = {"aggregator": f"TrimmedMean({b})", "J": [[str(v) for v in r] for r in J], "dtype": str(dtype)}
+    perms = list(itertools.permutations(range(m))) if m <= 5 else [rng.sample(range(m), m) for _ in range(60)]
+    for p in perms:
+        p = list(p)
+        y = A(Jt[p])
+        ctx.count("permutations_checked", "TrimmedMean:outliers")
+        if not bool(torch.isfinite(y).all()) or float((x - y).abs().max()) > tol:
+            ctx.violation(f"TrimmedMean({b}): permuting the rows by {p} changes the result by {float((x - y).abs().max()):.3e} "
+                          f"(allowance {tol:.1e}: rounding of the {m - 2 * b} entries kept per column, all below {kept})",
+                          {**rp, "perm": p})
+            return
+    ctx.case(("tm-outliers", str(J), b, str(dtype)), nontrivial=True,
+             sample={"aggregator": f"TrimmedMean({b})", "family": "outliers", "rows": m, "permutations": len(perms)})
+
+
+def top_of_range(ctx: Ctx, dtype):
+    """finite matrices whose first column sits near the top of the dtype's range with mixed signs: Mean, Constant (small
+    weights) and TrimmedMean (extremes trimmed) have a finite value without intermediate overflow in every row order, so
+    every order must give that value (and none may be rejected as non-finite)"""
+    from torchjd.aggregation import Constant, Mean, TrimmedMean
+    rng = ctx.rng
+    top = float(torch.finfo(dtype).max)
+    m = 6
+    signs = [1, -1, 1, -1, 1, -1]
+    rng.shuffle(signs)
+    Jt = torch.tensor([[signs[i] * top * rng.uniform(0.55, 0.95), rng.uniform(-3, 3), rng.uniform(-3, 3)] for i in range(m)],
+                      dtype=dtype)
+    w = torch.tensor([rng.choice([0.05, 0.1, 0.15, 0.2]) for _ in range(m)], dtype=dtype)
+    rp = {"family": "top-of-range", "J": Jt.tolist(), "dtype": str(dtype), "weights": w.tolist()}
+    for name, make in (("Mean", lambda p: Mean()), ("Constant", lambda p: Constant(w[p])),
+                       ("TrimmedMean(2)", lambda p: TrimmedMean(trim_number=2))):
+        try:
+            x = make(list(range(m)))(Jt)
+        except Exception as e:  # noqa: BLE001
+            ctx.violation(f"{name} raised {type(e).__name__} on a finite matrix (first column near {top:.1e})", {**rp, "aggregator": name})
+            return
+        scale = torch.tensor([top, 3.0, 3.0], dtype=torch.float64)
+        for _ in range(40):
+            p = rng.sample(range(m), m)
+            ctx.count("permutations_checked", f"{name}:top-of-range")
+            try:
+                y = make(p)(Jt[p])
+            except Exception as e:  # noqa: BLE001
+                ctx.violation(f"{name}: the row order {p} of a finite matrix is rejected ({type(e).__name__}) while the "
+                              f"original order is accepted", {**rp, "aggregator": name, "perm": p})
+                return
+            d = (x.double() - y.double()).abs() / scale
+            if not bool(torch.isfinite(y).all()) or float(d.max()) > 1e-5:
+                ctx.violation(f"{name}: permuting the rows by {p} changes the result from {x.tolist()} to {y.tolist()}",
+                              {**rp, "aggregator": name, "perm": p})
+                return
+        ctx.case(("top", name, str(Jt.tolist()), str(dtype)), nontrivial=True,
+                 sample={"aggregator": name, "family": "top-of-range", "dtype": str(dtype)})
+
+
 def main(ctx: Ctx):
     ctx.lean_gate()
+    for i in range(6 if ctx.tier == "quick" else 400):
+        trimmed_outliers(ctx, torch.float64 if i % 2 == 0 else torch.float32)
+        top_of_range(ctx, torch.float32 if i % 2 == 0 else torch.float64)
     cat = [s for s in catalogue() if s.name in INVARIANT]
     quick = ctx.tier == "quick"
     reps = 5 if quick else 150
